@@ -33,7 +33,7 @@ func (c20) ID() string    { return "C20" }
 func (c20) RunFn() string { return "run_C20" }
 func (c20) Workers() int  { return 8 }
 func (c20) Rule() string {
-	return "structured addresses: DNS names (digit/hyphen labels, single label, trailing dot, xn--), IPv4, IPv6 (8 groups, :: at every position and run length, embedded and mapped IPv4, %zone, mixed case) bare or bracketed, x port absent/present, x ensurePort port argument in {5222,0,negative,large}; for every input also the SRV path of client.go (ensurePort(addr, port) handed to NewClientTransport, i.e. ensurePort applied twice: the second application must change nothing, and a portless form must be dialled at exactly the first port); one structured host in seven also as host: / [v6]: (empty port: model and code compared, nothing asserted); every port 0..65535 for one host per form (thorough; a sample in quick); all strings of length <= 4 (thorough: <= 5) plus random strings of length <= 8 over {a : [ ] . 1 w s / W S}; ws/wss URLs with the scheme in every letter case, hosts named ws/wss (any case) with ports; addresses with white space at either end, and the property's own exception - a string that is not an IPv6 literal as a whole but an unbracketed IPv6 literal directly followed by :digits - are run (no panic) but compared as a constant (not an address form of the property); distinct = distinct (address, port argument); non-trivial = structured form, or a raw string containing ':' '[' or ']'"
+	return "structured addresses: DNS names (digit/hyphen labels, single label, trailing dot, xn--), IPv4, IPv6 (8 groups, :: at every position and run length, embedded and mapped IPv4, %zone, mixed case) bare or bracketed, x port absent/present, x ensurePort port argument in {5222,0,negative,large}; for every input also the SRV path of client.go (ensurePort(addr, port) handed to NewClientTransport, i.e. ensurePort applied twice: the second application must change nothing, and a portless form must be dialled at exactly the first port); one structured host in seven also as host: / [v6]: (empty port: model and code compared, nothing asserted); every port 0..65535 for one host per form (thorough; a sample in quick); all strings of length <= 4 (thorough: <= 5) plus random strings of length <= 8 over {a : [ ] . 1 w s / W S}; ws/wss URLs with the scheme in every letter case, hosts named ws/wss (any case) with ports; reconnections: the transport each constructor returns for host:port (localhost, 127.0.0.1, IPv4-mapped and non-canonical IPv6 literals, ::1 forms where the sandbox has an IPv6 loopback) is connected 2-4 times to a loopback listener, one attempt possibly cut by the server, and the address it is about to dial is read before EVERY Connect: it must name the given host and port each time (Coq C20_redial_keeps_host); addresses with white space at either end, and the property's own exception - a string that is not an IPv6 literal as a whole but an unbracketed IPv6 literal directly followed by :digits - are run (no panic) but compared as a constant (not an address form of the property); distinct = distinct (address, port argument); non-trivial = structured form, or a raw string containing ':' '[' or ']'"
 }
 
 const c20Alphabet = "a:[].1ws/WS"
@@ -199,6 +199,7 @@ func c20Forms(out []interface{}, form, host string, parg int, eport string) []in
 func (c20) Gen(r *rand.Rand, tier string) []interface{} {
 	thorough := tier == "thorough"
 	var out []interface{}
+	out = append(out, c20RedialGen(thorough)...) // reconnections of one transport object (c20redial.go)
 	raw := func(s string, p int) { out = append(out, c20In{Addr: s, Port: p, Form: "raw"}) }
 
 	// fixed corners: scheme prefixes, the ws/wss host names, degenerate brackets
@@ -355,6 +356,10 @@ func (c20) Gen(r *rand.Rand, tier string) []interface{} {
 }
 
 func (c20) Decode(rawm json.RawMessage) (interface{}, error) {
+	var rd c20Redial
+	if err := json.Unmarshal(rawm, &rd); err == nil && rd.N > 0 {
+		return &rd, nil
+	}
 	var in c20In
 	err := json.Unmarshal(rawm, &in)
 	return in, err
@@ -413,6 +418,9 @@ func c20Checker(addr string) Sx {
 }
 
 func (c20) Run(inp interface{}) Sx {
+	if rd, ok := inp.(*c20Redial); ok {
+		return rd.run()
+	}
 	in := inp.(c20In)
 	ep := xmpp.VerifEnsurePort(in.Addr, in.Port)
 	ct := xmpp.NewClientTransport(xmpp.TransportConfiguration{Address: in.Addr})
@@ -431,6 +439,9 @@ func (c20) Run(inp interface{}) Sx {
 }
 
 func (c20) Input(inp interface{}) Sx {
+	if rd, ok := inp.(*c20Redial); ok {
+		return rd.input()
+	}
 	in := inp.(c20In)
 	return L(SBytes(in.Addr), Zi(in.Port), B(c20Excluded(in.Addr)))
 }
@@ -471,6 +482,9 @@ func c20BareV6Port(addr string) bool {
 
 // Direct oracle (no model): the property's own predicate on what was observed.
 func (c20) Oracle(inp interface{}, obs Sx) (string, string) {
+	if rd, ok := inp.(*c20Redial); ok {
+		return rd.oracle(obs)
+	}
 	in := inp.(c20In)
 	if c20Excluded(in.Addr) {
 		return "", ""
@@ -611,6 +625,9 @@ func c20WsURL(a string) bool {
 }
 
 func (c20) Key(inp interface{}) (string, bool) {
+	if rd, ok := inp.(*c20Redial); ok {
+		return rd.key()
+	}
 	in := inp.(c20In)
 	if c20Excluded(in.Addr) {
 		if c20BareV6Port(in.Addr) {
